@@ -1,4 +1,5 @@
 import FlowCalModel.Stats
+import FlowCalModel.Generated
 import Mathlib.Algebra.BigOperators.Group.List.Basic
 import Mathlib.Algebra.Order.Ring.Rat
 import Mathlib.Data.List.Sort
@@ -77,5 +78,8 @@ theorem rcv_def (xs : List Rat) : rcv xs = iqr xs / median xs := rfl
 example : mean [3, 1, 4, 1, 5, 9, 2] = 25 / 7 := by decide +kernel
 example : isMode [3, 1, 4, 1, 5, 9, 2] 1 = true ∧ isMode [3, 1, 4, 1, 5, 9, 2] 3 = false ∧ isMode [2, 2, 5, 5] 5 = true := by decide +kernel
 example : variance [2, 4, 4, 4, 5, 5, 7, 9] = 4 := by decide +kernel
+
+/-- the public functions of `stats.py` are, statement for statement, the NumPy/SciPy calls the model stands for (regenerated on every run) -/
+theorem stats_definitions_match_source : Generated.statsDefinitions = FlowCal.Stats.sourceSpec := rfl
 
 end FlowCal.C12
